@@ -5,8 +5,15 @@ META = {
     "design_ref": "6/C16",
     "technique": "Coq proof about an ADDRESSED memory model (byte list + (offset,length) slices + partial accessors) of the generic shapes the crates use, plus directed differential runs of every byte-slice API under guard pages (mmap/mprotect, canaries, 64 alignments x 2 placements abutting unmapped pages, child processes) compared with the run on an ordinary aligned buffer",
     "level_text": "PARTIAL. Machine-checked (Props/C16.v, 30 theorems, all closed), for ALL memories, slice base addresses (= alignments) and lengths: (1) the FULL try_apply_keystream (lazy refill after a mid-block seek, len/fresh limit with the Err return, buffered prefix, 256-byte wide chunks, 64-byte tail incl. the partial block), written with accessors that fail outside the slice and run with the REAL block producers, never leaves the slice, changes nothing outside it, and returns exactly what the faithful model of C02/C11 (Model/ChaChaStream.v) returns on the slice's bytes (C16_stream_apply_real_eq_faithful_model); on every reachable cipher state that is the specified key stream xor the data, or Err with memory untouched (C16_stream_apply_reachable_value, C16_stream_apply_err_untouched); the simplified m_apply of the first theorems and of the runner is its special case (C16_m_apply_is_special_case[_real]); (2) hash update in both forms, eager input_block (Groestl, JH, BLAKE) and lazy input_lazy (Skein): reads only inside the slice, equals the block-buffer model on the bytes; (3) StoreBytes read_le/write_le/read_be/write_be and their x2 and x4 compositions: Ok exactly for the asserted lengths, the value read / the bytes written in address order, any other length is the panic with memory outside the slice unchanged, never an out-of-slice access; (4) in-place block operations; chunk splitting covers the data exactly once (C16_chunks_cover, C16_apply_segments_partition). OBSERVED, not proved (guard pages / canaries, h_mem): that the compiled code - intrinsics, unsafe pointer code in ppv-lite86 and the compression functions, rustc's code generation - performs no access outside the slice and needs no alignment when such an access would not change any value, and that the real entry points hand exactly these slices to the modelled shapes.",
-    "level_note": "Proved: the byte-level contract of the model (which keeps addresses, so address independence is a theorem, not a by-construction fact). Only observed (h_mem, this run's counts are in coverage.configurations): every API of the 7 ChaCha types (apply_keystream, new(key), new(nonce)), update and finalize_into of the 15 hash types, Threefish-256/512/1024 encrypt_block/decrypt_block/new(key), StoreBytes read_le/read_be/write_le/write_be of the 5 vector types that have it on SSE2/SSSE3/SSE4.1(AVX)/AVX2 machines, each on a slice starting a bytes after the first / ending a bytes before the last mapped byte (a = 0..63; a = 0 abuts a PROT_NONE page) at every length class, plus a sweep of 64 consecutive lengths per class at a = 0 so that the free end takes every alignment; result, slice content, ok/panic outcome equal to the aligned-buffer run; canary outside the slice intact; signals reported per case. Groestl's AES-NI/SSSE3/SSE2 choice cannot be forced without a hook (host choice only). Tie model <-> code: a sample of cases (memory window before/after) is recomputed by Run/SliceApi.v with oracle bytes from the aligned run.",
-    "rule": "case = (API, placement head|tail, a in 0..63, length, pre-state code); distinct = distinct tuples; non-trivial = length > 0; each case: guarded run vs aligned-heap run of the same implementation (direct_failures = violations with the placement as replay); a sample of <= 480 cases per configuration is re-computed in coqc by the addressed model (disagreement alone = correspondence broken)",
+    "level_note": "Proved: the byte-level contract of the model (which keeps addresses, so address independence is a theorem, not a by-construction fact). Only observed (h_mem, this run's counts are in coverage.configurations): every API of the 7 ChaCha types (apply_keystream, new(key), new(nonce)), update and finalize_into of the 15 hash types, Threefish-256/512/1024 encrypt_block/decrypt_block/new(key), StoreBytes read_le/read_be/write_le/write_be of all 10 vector types on the SSE2/SSSE3/SSE4.1(AVX)/AVX2 machines (the 5 the Machine bounds promise + u64x2, u128x1, u64x2x4, u128x2, u128x4) and of the 7 that have it on the portable machine, each on a slice starting a bytes after the first / ending a bytes before the last mapped byte (a = 0..63; a = 0 abuts a PROT_NONE page) at every length class, plus a sweep of 64 consecutive lengths per class at a = 0 so that the free end takes every alignment; result, slice content, ok/panic outcome equal to the aligned-buffer run; canary outside the slice intact; signals reported per case. Groestl's AES-NI/SSSE3/SSE2 choice cannot be forced without a hook (host choice only). Tie model <-> code: a sample of cases (memory window before/after) is recomputed by Run/SliceApi.v with oracle bytes from the aligned run.",
+    "rule": "case = (API, placement head|tail, a in 0..63, length, pre-state code); distinct = distinct tuples; non-trivial = length > 0; "
+            "lengths (quick): 19 classes 0..1024 at every a, sweeps of 64 consecutive lengths at 7 bases (a = 0, both placements), the large classes 2048 / 4096 / 4097 "
+            "(span a page / cross the inner page boundary) at a in {0,1,15,16,31,32,33,63}, and a sweep 4032..4095 ending at the last mapped byte; wrong lengths for fixed-size APIs; "
+            "configurations (quick): host dispatch debug + release (all families), hook H1 forced to SSE2 and to SSE4.1 in release (ChaCha family; a failed `h1` build is a reported problem), "
+            "portable (no_simd) release; thorough: H1 levels 1..5 (chacha, hash) and longer lengths; "
+            "each case: guarded run vs aligned-heap run of the same implementation (direct_failures = violations with the placement as replay); a sample of <= 480 cases (<= 160 on the forced "
+            "back ends) per configuration, cases of length <= 320 only, an even stride over the case list rotated by seed mod stride (recorded as coq_sample), is re-computed in coqc by the "
+            "addressed model (disagreement alone = correspondence broken)",
     "assumptions": ["little-endian x86-64 Linux host, 4 KiB pages", "an out-of-slice access that stays inside the same mapped page run and changes neither the result nor the canary is invisible to the runs"],
     "trusted_extra": ["mmap/mprotect/fork semantics of the host kernel (guard pages)"],
 }
@@ -15,13 +22,31 @@ WHAT = "addressed slice model of Model/SliceApi.v: window after the call = write
 
 
 def one(ctx, binary, label, extra=()):
-    args = ["--quick", 1 if ctx.quick else 0, "--coqcases", 480 if ctx.quick else 1600] + list(extra)
+    # the harness takes the FIRST occurrence of an option: `extra` overrides the defaults
+    args = list(extra) + ["--quick", 1 if ctx.quick else 0, "--coqcases", 480 if ctx.quick else 1600]
     s = vlib.correspondence(ctx, binary, "mem", args, label)
     ctx.log("%s: %d cases, %d failing, %d Coq window cases, model disagreements %s, signals %s" % (
         label, s.get("evaluations", 0), s.get("failing_cases", 0), s.get("coq_window_cases", 0),
         s["failing"][:5], s.get("signals")))
     vlib.decide_relative(ctx, s, explain="explain_mem", theorem="C16_apply_keystream_writes_exactly / C16_storebytes_write_exactly / C16_block_apply_exactly", what=WHAT)
     return s
+
+
+NAMES = {1: "sse2", 2: "ssse3", 3: "sse4.1", 4: "avx", 5: "avx2"}
+
+
+def _h1_binary(ctx):
+    """h_mem with the `h1` feature (calls ppv_lite86::x86_64::verif::set_level). A failed build is a reported problem:
+    the forced back ends are part of what this check claims to have run."""
+    binary, log = vlib.cargo_build(features=("h1",), profile="release", bin_name="h_mem")
+    if binary is None:
+        ctx.log("h1 build failed: back-end forcing not possible")
+        ctx.violation({"kind": "harness-build-failed", "config": "h_mem --features h1 (release)",
+                       "errors": [log[-2000:]],
+                       "note": "hook H1 (ppv_lite86::x86_64::verif::set_level) is not available to the harness: the slice APIs "
+                               "could not be run on the forced SSE2/SSE4.1 back ends; only host dispatch was exercised"},
+                      no_input=True)
+    return binary
 
 
 def run(ctx):
@@ -35,24 +60,31 @@ def run(ctx):
             raise vlib.CheckError("guard-page self-test failed (a deliberate 1-byte over-read/over-write/aligned load was not reported): %s" % st)
         one(ctx, binary, "host/%s" % profile)
     if ctx.quick:
+        # forced back ends (hook H1): the SSE2 machine (what dispatch_light128! picks below AVX, and dispatch! on an old
+        # CPU) and the SSE4.1 machine, ChaCha family (every slice API of the 7 stream types)
+        binary = _h1_binary(ctx)
+        if binary is not None:
+            for level in (1, 3):
+                one(ctx, binary, "H1-%s/release" % NAMES[level], ["--level", level, "--families", "chacha", "--coqcases", 160])
         # the portable back end (its byte loads go through zerocopy conversions, not raw pointers)
         binary, log = vlib.cargo_build(features=("no_simd",), profile="release", bin_name="h_mem")
         if binary is None:
             raise vlib.CheckError("harness build failed (h_mem no_simd): %s" % log[-2000:])
         one(ctx, binary, "no_simd/release", ["--families", "chacha,hash,storebytes"])
         return
-    # every back end: run-time dispatch capped through hook H1 (if present), and the portable one
-    names = {1: "sse2", 2: "ssse3", 3: "sse4.1", 4: "avx", 5: "avx2"}
-    binary, log = vlib.cargo_build(features=("h1",), profile="release", bin_name="h_mem")
-    if binary is None:
-        ctx.assumptions.append("hook H1 (ppv_lite86::x86_64::verif::set_level) not present at build time: back ends not forced, host dispatch only")
-        ctx.log("h1 build failed: back-end forcing skipped")
-    else:
+    # every back end: run-time dispatch capped through hook H1, and the portable one
+    binary = _h1_binary(ctx)
+    if binary is not None:
         for level in (1, 2, 3, 4, 5):
-            one(ctx, binary, "H1-%s/release" % names[level], ["--level", level, "--families", "chacha,hash"])
+            one(ctx, binary, "H1-%s/release" % NAMES[level], ["--level", level, "--families", "chacha,hash"])
     binary, log = vlib.cargo_build(features=("no_simd",), profile="release", bin_name="h_mem")
     if binary is None:
-        ctx.assumptions.append("portable (no_simd) harness did not build: not run")
-        ctx.log("no_simd build failed: %s" % log[-500:])
-    else:
-        one(ctx, binary, "no_simd/release")
+        raise vlib.CheckError("harness build failed (h_mem no_simd): %s" % log[-2000:])
+    one(ctx, binary, "no_simd/release")
+
+
+def warm():
+    for kw in (dict(profile="debug"), dict(profile="release"), dict(features=("h1",), profile="release"),
+               dict(features=("no_simd",), profile="release")):
+        binary, log = vlib.cargo_build(bin_name="h_mem", **kw)
+        print("warm C16 %s: %s" % (kw, "ok" if binary else "FAILED"))
